@@ -105,7 +105,7 @@ class SeqExec(HeapExec):
             yield p, V("function", name)
         elif name in getattr(self.reg, "modules", {}):
             yield p, V("module", name)
-        elif name in ("tuple", "len", "next", "reversed", "list", "iter", "enumerate", "zip", "all", "any", "getattr"):
+        elif name in ("tuple", "len", "next", "reversed", "list", "iter", "enumerate", "zip", "all", "any", "getattr", "isinstance", "type"):
             yield p, V("builtin", name)
         else:
             h = self.find_helper(name)
@@ -135,6 +135,8 @@ class SeqExec(HeapExec):
 
     def is_compare(self, l, r, p, e):
         for a, b in ((l, r), (r, l)):
+            if a.k == "pytype" and b.k == "builtin":
+                return BoolVal(a.t == b.t)
             if b.k == "ref" and b.t is NONE:
                 if a.k == "optint":
                     return Not(a.t[0])
@@ -506,6 +508,22 @@ class SeqExec(HeapExec):
         yield from self.apply_spec(spec, p, args, label)
 
     def builtin2(self, name, pos, kw, p, e):
+        if name == "type" and len(pos) == 1 and isinstance(pos[0].x, dict) and pos[0].x.get("py") in ("tuple", "list"):
+            yield p, V("pytype", pos[0].x["py"])
+            return
+        if name == "isinstance" and len(pos) == 2 and pos[1].k == "class" and isinstance(pos[0].x, dict) and pos[0].x.get("cls") in self.reg.bases:
+            # the value of a constructor call under a class-level contract: its class is known
+            yield p, vbool(BoolVal(pos[1].t in self.reg.mro(pos[0].x["cls"])))
+            return
+        if name == "isinstance" and len(pos) == 2 and pos[0].k == "obj" and pos[1].k == "class":
+            # an object constructed in this function / the receiver: its class is known statically
+            if pos[0].x in self.reg.bases or pos[0].x in self.reg.classes:
+                yield p, vbool(BoolVal(pos[1].t in self.reg.mro(pos[0].x)))
+                return
+        if name == "isinstance" and len(pos) == 2 and pos[0].k == "qseq" and pos[1].k == "builtin" and pos[1].t in ("tuple", "list") \
+                and isinstance(pos[0].x, dict) and pos[0].x.get("py") in ("tuple", "list"):
+            yield p, vbool(BoolVal(pos[0].x["py"] == pos[1].t))
+            return
         if name in ("tuple", "list"):
             if not pos:
                 yield p, qseq(EMPTY)
@@ -562,6 +580,10 @@ class SeqExec(HeapExec):
     def builtin(self, name, e, p):
         if name == "tuple" and e.args and isinstance(e.args[0], ast.GeneratorExp):
             yield from self.comprehension(e.args[0], p, "tuple")
+            return
+        if name == "tuple" and not e.args and not e.keywords:
+            # the empty tuple (also reached from the literal `()`)
+            yield from self.builtin2("tuple", [], {}, p, e)
             return
         raise Unsupported("builtin %s(...)" % name)
 
@@ -625,7 +647,10 @@ def _elem_of_sort(t):
 def _seq_apply(self, spec, p, args, label):
     for q, res in HeapExec.apply_spec(self, spec, p, args, label):
         if res is not None and res.k == "gen" and not isinstance(res.t, int):
+            tag = res.x if isinstance(res.x, dict) else None
             res = self.new_gen(q, res.t, _elem_of_sort(res.t))
+            if tag:
+                res = V(res.k, res.t, dict(res.x or {}, **tag))
         elif res is not None and res.k == "qseq" and res.x is None:
             res = qseq(res.t, _elem_of_sort(res.t))
         yield q, res
